@@ -58,6 +58,9 @@ def gen_str(r, kind, sep, esc):
         alpha = sep + base
     elif kind == 'unicode':
         alpha = '\xe9€\U0001f600' + base
+    elif kind == 'dense_unicode':
+        # almost every byte of the file belongs to a 2-4 byte character: some character straddles each 64 KiB read boundary
+        return ''.join(r.choice('\xe9€\U0001f600\u4e2d' + sep[0]) for _ in range(r.randint(15, 40)))
     else:                      # adversarial: everything
         alpha = sep + '"' + esc + ' a' + sep[0]
     n = r.choice([0, 1, 1, 2, 3, 4, r.randint(0, 12)])
@@ -111,7 +114,7 @@ class C18(Check):
                    'floats are finite and compared with == plus sign']
     ANCHORS = ['rxsci/container/csv.py', 'rxsci/io/file.py', 'rxsci/framing/line.py']
     REQUIRED_TAGS = ['stream', 'file', 'enc=None', 'enc=utf-8', 'multi-chunk-file', 'cols=1', 'cols=8',
-                     'skind=adversarial', 'skind=huge', 'fkind=bits', 'sep=,', 'sep=;', 'sep=|', 'sep=tab', 'sep=multi', 'pushed-source']
+                     'skind=adversarial', 'skind=huge', 'fkind=bits', 'sep=,', 'sep=;', 'sep=|', 'sep=tab', 'sep=multi', 'pushed-source', 'multibyte-char-across-a-64KiB-boundary']
     REQUIRED_OBSERVED = ['fields_compared', 'rows_needing_quote_merge']
 
     def __init__(self):
@@ -126,7 +129,7 @@ class C18(Check):
         return self.tmp
 
     def generate(self, rng, tier, shard, nshards):
-        n = 12000 if tier == 'quick' else 10 ** 7
+        n = 8400 if tier == 'quick' else 10 ** 7
         nfiles = 14 if tier == 'quick' else 60
         skinds = ['plain', 'blank', 'quote', 'escape', 'sep', 'unicode', 'adversarial', 'mixed']
         fkinds = ['special', 'bits', 'decimal', 'digits17', 'integral', 'mixed']
@@ -145,9 +148,11 @@ class C18(Check):
             big = is_file and (k // file_every) % 2 == 0
             if big and len(cols) < 4:
                 cols = cols + [rng.choice(['int', 'float', 'bool', 'str', 'str', 'float']) for _ in range(4)]
+            if big and (k // file_every) % 4 == 0:
+                cols = ['str', 'int', 'str', 'str']
             yield {'cols': cols, 'sep': SEPS[k % len(SEPS)], 'esc': ESCS[(k // len(SEPS)) % 2],
                    'rows': {'n': rng.randint(1500, 4000) if big else rng.choice([0, 1, 2, 5, 20]),
-                            'skind': skinds[k % len(skinds)], 'fkind': fkinds[(k // 2) % len(fkinds)],
+                            'skind': 'dense_unicode' if (big and (k // file_every) % 4 == 0) else skinds[k % len(skinds)], 'fkind': fkinds[(k // 2) % len(fkinds)],
                             'rseed': rng.randrange(1 << 30)},
                    'mode': 'file' if is_file else 'stream',
                    'encoding': (None, 'utf-8')[(k // file_every) % 4 // 2] if is_file else None}
@@ -202,6 +207,10 @@ class C18(Check):
             out.observed['file_bytes'] += size
             if size > 65536:
                 out.tags.append('multi-chunk-file')
+                with open(path, 'rb') as fb:
+                    raw = fb.read()
+                if any((raw[b] & 0xC0) == 0x80 for b in range(65536, len(raw), 65536)):
+                    out.tags.append('multibyte-char-across-a-64KiB-boundary')
             got = subscribe2(csv.load_from_file(path, parser, encoding=enc), out, 'load_from_file', same=lambda x, y: repr(x) == repr(y))
 
         def mech_of(i=None, j=None):
